@@ -492,6 +492,27 @@ def gen_c11(rng, thorough=False):
                 else:
                     steps += [peer(late[head:]), st2, reply([3, 2, 0x12, 0x34], unit=1)]
                 scs.append(scenario(len(scs), steps, tag=f"c11-late-reply-straddles-deadline@{head}-{tail_when}", txid0=txid0))
+    # the id sequence belongs to the channel, not to a connection: it goes on across disable / enable, a peer that closes,
+    # a framing error and a new connection
+    for how in ("disable-enable", "eof", "garbage", "mixed"):
+        steps = [cmd("enable")]
+        r = 0
+        for rnd in range(4):
+            for _ in range(rng.randint(1, 3)):
+                r += 1
+                st = rand_request(rng, r, unit=1, timeout=100)
+                steps += [st, reply(good_reply(rng, st), unit=1)]
+            h = how if how != "mixed" else rng.choice(["disable-enable", "eof", "garbage"])
+            if h == "disable-enable":
+                steps += [cmd("disable"), cmd("new_conn"), cmd("enable")]
+            elif h == "eof":
+                steps += [{"op": "eof"}, cmd("new_conn")]
+            else:
+                steps += [peer([0, 0, 0, 9, 0, 0, 0, 0]), cmd("new_conn")]
+        r += 1
+        st = rand_request(rng, r, unit=1, timeout=100)
+        steps += [st, reply(good_reply(rng, st), unit=1)]
+        scs.append(scenario(len(scs), steps, tag=f"c11-id-sequence-across-{how}", txid0=rng.choice([0, 65533])))
     # invalid requests taken from the queue still advance the id
     steps = [cmd("enable")]
     r = 0
@@ -806,6 +827,16 @@ def gen_c07_client(rng, n):
                 steps.append(cmd("decode", level=rng.choice(DECODES)))
         scs.append(scenario(k, steps, framing=framing, max_timeouts=rng.choice([0, 2]), decode=rng.choice(DECODES),
                             tag="c07-client"))
+    # the RTU length boundary: read replies whose byte count puts the frame at, just below and beyond the largest frame
+    for bc in (0xF8, 0xFA, 0xFB, 0xFC, 0xFD, 0xFE, 0xFF):
+        for fc in (1, 3):
+            for when in ("await", "idle"):
+                body = [1, fc, bc] + [rng.randrange(256) for _ in range(bc + 2)]
+                steps = [cmd("enable")]
+                if when == "await":
+                    steps.append(submit(1, fc, 1, 0, 100 if fc == 3 else 2000, (), 100))
+                steps += [peer(body), tick(100), cmd("new_conn"), submit(2, 3, 1, 0, 1, (), 10), tick(10)]
+                scs.append(scenario(len(scs), steps, framing="rtu", tag=f"c07-client-rtu-length-boundary-{bc:#x}"))
     # "spin without progress or stop honouring shutdown": a peer that never answers but keeps sending well-formed frames
     # (foreign ids, exceptions for other functions, unsolicited replies) faster than the response timeout; the request must
     # still time out at its deadline, the queue behind it must move, and disable / shutdown must be acted upon
